@@ -35,6 +35,12 @@ def run(ctx):
   rule_pure(ctx)
   rule_pseudoavg(ctx)
   ctx.expect("R-C19-PSEUDOAVG", 1, "PseudoAverage")
+  # "the product trees equal their definitions", "Fisher combination equals its exact definition" (shared with C03 / C13)
+  from . import c03, c13
+  ctx.borrow(c03.rule_tree, "R-C19-TREE")
+  ctx.borrow(c13.rule_fisher, "R-C19-FISHER")
+  ctx.expect("R-C19-TREE", 11, "product tree obligations")
+  ctx.expect("R-C19-FISHER", 4, "four cases")
   ctx.expect("R-C19-PURE", 40, "every function of the helper modules")
   ctx.expect("R-C19-BIAS", 2, "statistic + summand count")
   ctx.expect("R-C19-HENSEL", 8, "two loops x (base, identity, exponent, reduction)")
@@ -71,9 +77,18 @@ def hensel(ctx, fname, kind):
   info = loops[0]
   vis = info["visits"][0]
   pre, head = vis["pre"], vis["head"]
-  a0, t0 = pre.env.get("a"), pre.env.get("t")
+  # roles, not names: the exponent is the carried variable whose new value is min(k, .); the iterate is the other carried variable
+  mods = [nm for nm in info["modified"] if isinstance(head.env.get(nm), Poly) and head.env[nm].as_atom() is not None and head.env[nm].as_atom().kind == "sym"]
+  tn = [nm for nm in mods if any(isinstance(bp[2].env.get(nm), Poly) and bp[2].env[nm].as_atom() is not None and bp[2].env[nm].as_atom().kind == "min"
+                                 and k in bp[2].env[nm].as_atom().args for bp in info["body_paths"])]
+  an = [nm for nm in mods if nm not in tn]
+  if len(tn) != 1 or len(an) != 1:
+    ctx.violation(R, f.where, "Newton loop", "expected one iterate and one exponent min(k, .) carried by the loop (carried: %s)" % mods)
+    return
+  AN, TN = an[0], tn[0]
+  a0, t0 = pre.env.get(AN), pre.env.get(TN)
   t0i = as_poly(t0).as_int() if t0 is not None else None
-  a_h, t_h = as_poly(head.env.get("a")), as_poly(head.env.get("t"))
+  a_h, t_h = as_poly(head.env.get(AN)), as_poly(head.env.get(TN))
   # ---- base
   if kind == "inv":
     # a0 == n mod 2^s, s >= t0, t0 <= 3, n odd  =>  a0*n == n^2 == 1 (mod 2^t0)
@@ -107,7 +122,7 @@ def hensel(ctx, fname, kind):
       whyI = "loop left by %s" % kind_
       continue
     n_paths += 1
-    a_e, t_e = as_poly(s.env.get("a")), as_poly(s.env.get("t"))
+    a_e, t_e = as_poly(s.env.get(AN)), as_poly(s.env.get(TN))
     ta = t_e.as_atom()
     if ta is None or ta.kind != "min" or k not in ta.args:
       okE = False
@@ -156,7 +171,9 @@ def hensel(ctx, fname, kind):
   c = w.cond(info["node"].test, head)
   okc, dc = regions.equivalent_dnf([[(c, True)]], lambda v: v[t_h] < v[k], main=t_h, extra_atoms=[k.as_atom()])
   rets = [e for e in w.events if e.kind == "return" and e.node is not None and not e.state.tags and not isinstance(e.data["value"], Const)]
-  okr = bool(rets) and all(isinstance(e.node.value, ast.Name) and e.node.value.id == "a" for e in rets if e.node.lineno > info["node"].lineno)
+  after_a = vis["after_env"].get(AN)
+  late = [e for e in rets if e.node.lineno > info["node"].lineno]
+  okr = bool(rets) and isinstance(after_a, Poly) and all(isinstance(e.data["value"], Poly) and e.data["value"] == after_a for e in late)
   ctx.record(R, f.where, "loop runs while t < k and returns a", bool(okc) and okr, dc if not okc else "exit with t = k, result a")
 
 
@@ -429,7 +446,35 @@ def rule_cf(ctx):
   info = loops[0]
   vis = info["visits"][0]
   head = vis["head"]
-  H = {v: as_poly(head.env.get(v)) for v in ("a", "b", "r", "s", "t", "u")}
+  # roles of the six carried variables, from what they are tested for / replaced by / started with (not from their names)
+  carried = [nm for nm in info["modified"] if isinstance(head.env.get(nm), Poly) and head.env[nm].as_atom() is not None and head.env[nm].as_atom().kind == "sym"]
+  paths0 = [bp for bp in info["body_paths"] if bp[0] in ("fall", "continue")]
+  c0 = w.cond(info["node"].test, head)
+  role = {}
+  for nm in carried:
+    if c0[0] == "truthy" and isinstance(c0[1], Poly) and c0[1] == head.env[nm]:
+      role["b"] = nm
+  if "b" in role and paths0:
+    endv = lambda nm: paths0[0][2].env.get(nm)
+    for nm in carried:
+      if nm != role["b"] and isinstance(endv(nm), Poly) and endv(nm) == head.env[role["b"]]:
+        role["a"] = nm
+    rest = [nm for nm in carried if nm not in role.values()]
+    for x in rest:
+      for y in rest:
+        if x != y and isinstance(endv(y), Poly) and endv(y) == head.env[x]:
+          px, py = vis["pre"].env.get(x), vis["pre"].env.get(y)
+          if px is not None and py is not None and not isinstance(px, (Seq, tuple)) and not isinstance(py, (Seq, tuple)):
+            ini = (as_poly(px).as_int(), as_poly(py).as_int())
+            if ini == (1, 0):
+              role["r"], role["s"] = x, y
+            elif ini == (0, 1):
+              role["t"], role["u"] = x, y
+  if set(role) != {"a", "b", "r", "s", "t", "u"}:
+    ctx.violation(R, f.where, "Euclid recurrence", "the six carried quantities (a, b) / (r, s) / (t, u) cannot be identified: %s" % sorted(role.items()))
+    ctx.violation(R, f.where, "appends (q, r, t) after the update", "recurrence not identified")
+    return
+  H = {v: as_poly(head.env.get(role[v])) for v in ("a", "b", "r", "s", "t", "u")}
   ok = True
   why = ""
   oka = True
@@ -440,7 +485,7 @@ def rule_cf(ctx):
       continue
     q = sym.mk("fdiv", H["a"], H["b"])
     rem = sym.mk("mod", H["a"], H["b"])
-    E = {v_: as_poly(s_.env.get(v_)) for v_ in ("a", "b", "r", "s", "t", "u")}
+    E = {v_: as_poly(s_.env.get(role[v_])) for v_ in ("a", "b", "r", "s", "t", "u")}
     want = {"a": H["b"], "b": rem, "r": H["r"] * q + H["s"], "s": H["r"], "t": H["t"] * q + H["u"], "u": H["t"]}
     for k_ in want:
       if not (E[k_] - want[k_]).is_zero():
@@ -457,7 +502,7 @@ def rule_cf(ctx):
   c = w.cond(info["node"].test, head)
   okc = c[0] == "truthy" and as_poly(c[1]) == H["b"]
   init = vis["pre"].env
-  oki = [as_poly(init.get(x)).as_int() for x in ("r", "s", "t", "u")] == [1, 0, 0, 1]
+  oki = [as_poly(init.get(role[x])).as_int() for x in ("r", "s", "t", "u")] == [1, 0, 0, 1]
   ctx.record(R, f.where, "Euclid recurrence", ok and okc and oki, why or ("(a, b) <- (b, a mod b); (r, s) <- (r*q + s, r); (t, u) <- (t*q + u, t) with q = a // b, start (1, 0, 0, 1), while b"
                                                                          if okc and oki else "loop condition / initial convergents changed"))
   ctx.record(R, f.where, "appends (q, r, t) after the update", oka, "one triple (quotient, numerator, denominator) per step" if oka else "appended triple is not (q, r', t')")
